@@ -3,7 +3,7 @@ from .common import *
 
 RULE = ("the same keygen / sign / try_sign requests are executed: first, after many unrelated operations on other keys, 16-fold concurrently on the harness's worker "
         "threads, in a second harness process, and through the byte-level function vs the in-memory SigningKey; all answers must be byte-identical to each other and "
-        "to the single model value; plus the kernel-checked verdict that the library has no ambient-state source outside the fast_verify feature; Seed objects built from 32 bytes whose tail beyond the hash length varies (same key, reload-and-verify)")
+        "to the single model value; plus the kernel-checked verdict that the library has no ambient-state source outside the fast_verify feature; Seed objects built from 32 bytes whose tail beyond the hash length varies (same key, reload-and-verify); the same in a build with the fast_verify feature at roll-over counters (plain keygen / sign / try_sign)")
 ASSUMPTIONS = ["that safe Rust without shared mutable state cannot make a result depend on scheduling is an argument about Rust's type system (trusted, not formalised)",
                "process-level repetition is limited to a second harness process on the same machine"]
 
@@ -105,9 +105,42 @@ def run(ctx):
     for c, a, b in ctx.both(ver, None):
         if a != "ok":
             ctx.fail("a key reloaded from its bytes does not continue under the generated public key", [c.line[:300]], a, "ok")
+    fast_verify_build(ctx)
     # ambient inventory (kernel-checked in Props/C09.lean); repeat the reading here for the evidence
     meta = json.load(open(os.path.join(LEAN, "HbsLms", "Generated", "meta.json")))
     bad = [a for a in meta["ambient"] if not a["fast_verify_only"]]
     ctx.extra["ambient_sites"] = meta["ambient"]
     for a in bad:
         ctx.fail("ambient-state source outside the fast_verify feature", ["%s:%d" % (a["file"], a["line"])], a["kind"] + ": " + a["text"], "no static / interior mutability / RNG / clock / env / fs / unsafe")
+
+
+def fast_verify_build(ctx):
+    """the same purity in a build with the cargo feature fast_verify: only sign_mut may consult the RNG; keygen, sign and try_sign must stay
+    functions of their inputs (and equal the model), in particular at tree roll-overs of multi-level keys"""
+    from . import C15
+    rng = ctx.rng
+    if not ctx.open(C15.CFGS_QUICK[0], features=["fast_verify"]):
+        return
+    observed = []
+    for i, ps in enumerate([[(3, 1), (3, 1)], [(2, 1), (3, 5)], [(3, 5), (3, 1)], [(3, 1), (2, 1), (3, 1)], [(3, 1)]]):
+        H = ALL_H[i % 6]
+        seed = rng.bytes_(HASHES[H])
+        observed.append(keygen_line(H, ps, seed))
+        hs = heights_of(ps)
+        cs = boundary_counters(hs, rng, 1)
+        for c in (cs if ctx.tier == "thorough" else sorted(set(cs[:3] + rng.sample(cs, min(6, len(cs))) + cs[-2:]))):
+            msg = gen_msg(rng)
+            observed.append(sign_line(H, sk_blob(H, ps, seed, c), msg))
+            observed.append(trysign_line(H, sk_blob(H, ps, seed, c), msg))
+    first = {}
+    for c, a, b in ctx.both([Case(l, "fast_verify-build/first") for l in observed], None):
+        first[c.line] = a
+    batch = []
+    for i in range(6 if ctx.tier == "quick" else 24):
+        xs = [Case(l, "fast_verify-build/repeated") for l in observed]
+        rng.shuffle(xs)
+        batch += xs
+    for c, a, b in ctx.both(batch, None, model=False):
+        if a != first[c.line]:
+            ctx.fail("identical inputs gave different outputs in a build with the fast_verify feature (keygen / sign / try_sign must not depend on the RNG)",
+                     [c.line], a[:200], first[c.line][:200])
